@@ -23,6 +23,8 @@ META = {
 
 def run(s):
     q = s.tier == 'quick'
+    from .c16 import header_placement
+    header_placement(s)
     for k_, txt_ in enumerate(K.idless_states()):
         if s.mine(k_):
             acc.sweep(s, s.load(txt_), txt_, {'workload': 'id-less elements'})
